@@ -46,7 +46,10 @@ def configs(tier, seed):
         if tier == "quick" and n == 3:
             counts_list = [(1, 1, 1), (2, 2, 1), (2, 0, 1)] + ([(2, 2, 2)] if edges == [(0, 1), (1, 2)] else [])
         for counts in counts_list:
-            for mip in ([0, 2] if tier == "quick" else [0, 2, 3, 0.5, 1.0]):
+            mips = [0, 2] if tier == "quick" else [0, 2, 3, 0.5, 1.0]
+            if tier == "quick" and tuple(counts) in ((2, 1), (2, 2, 1), (2, 0, 1)):
+                mips = mips + [1.0, 0.5]  # fractional thresholds (incl. the float 1.0 = "all nodes") where incomplete instances occur
+            for mip in mips:
                 out.append(dict(kind="group", edges=edges, n_nodes=n, counts=list(counts), min_instance_peaks=mip, nan_scores=(counts in ((1, 1), (2, 2), (2, 1), (1, 1, 1), (2, 2, 1)))))
     out.append(dict(kind="score", coincide=True))
     out.append(dict(kind="score", coincide=False))
